@@ -1312,11 +1312,180 @@ def check_sizes_and_forms(run, base, region, orc, pts, ans, exact_only, orng, se
         run.oracle_failure(dict(case, what="get_location_of", indices=want), f"get_location_of(iterator of indices) raised {type(e).__name__}: {e}")
 
 
+# ------------------------------------------------------------------------------------------------- round 7: copies, caught exceptions, subclasses, global state
+def check_copies_and_state(run, base, spec, region, cells, flags, orc, pts, ans, exact_only, orng, seed):
+    """(h) COPIES BEFORE USE: the region replaced by copy.copy / copy.deepcopy / a pickle round trip (and a catalog bound to it by its
+    deepcopy / pickle image) before get_masked / get_index_of / filter_spatial / spatial_counts — the answers are those of the original
+    (regions WITH flagged-out cells included: that is where a copy can lose something). (i) STATE AFTER A CAUGHT EXCEPTION: an index
+    lookup of an outside point (ValueError), an index that is no polygon, a data vector of the wrong length, spatial_counts with an
+    outside event, filter_spatial without any region — each caught, then the legal calls on the SAME objects. (j) USER SUBCLASS: a
+    catalog class that overrides the documented accessors get_longitudes / get_latitudes (it stores its coordinates shifted): every
+    spatial API answers for what the ACCESSORS return. (k) GLOBAL NUMERIC STATE: the region is built again and queried under
+    numpy.errstate(divide='raise', invalid='raise') and decimal.localcontext(prec = 2 .. 6) (probed: the unchanged tree gives the same
+    region and answers in that state) — same answers."""
+    import copy, pickle, decimal
+    from csep.core.catalogs import CSEPCatalog
+    from csep.core.exceptions import CSEPCatalogException
+    from . import c01
+    n = len(region.polygons)
+    if n > 3000:
+        return
+    pool = sorted(exact_only)
+    if len(region.xs) == 1:
+        pool = [k for k in pool if Fraction(pts[k][0]) < orc.ax.top]
+    if len(region.ys) == 1:
+        pool = [k for k in pool if Fraction(pts[k][1]) < orc.ay.top]
+    if not pool:
+        return
+    # the subset: points in flagged-out cells and holes first (that is what a copy may lose), then the rest
+    special = [k for k in pool if ans[k] == "o" and orc.ax.exact(pts[k][0], Fraction(pts[k][0])) is not None and
+               orc.ay.exact(pts[k][1], Fraction(pts[k][1])) is not None]
+    sub = (special if len(special) <= 60 else orng.sample(special, 60)) + [orng.choice(pool) for _ in range(90)]
+    lon = numpy.array([pts[k][0] for k in sub]); lat = numpy.array([pts[k][1] for k in sub])
+    exp = ["o" if ans[k] == "o" else int(ans[k]) for k in sub]
+    case = dict(base, points=[[repr(pts[k][0]), repr(pts[k][1])] for k in sub[:40]], what="ops:copies_and_state", ops_seed=seed)
+
+    def answers(r):
+        m = numpy.asarray(r.get_masked(lon.copy(), lat.copy())).astype(bool)
+        out = ["o"] * len(sub)
+        if (~m).any():
+            for i, v in zip(numpy.nonzero(~m)[0], r.get_index_of(lon[~m], lat[~m])):
+                out[i] = int(v)
+        return out
+
+    def first_diff(got):
+        i = next(i for i in range(len(sub)) if got[i] != exp[i])
+        return f"point ({float(lon[i])!r}, {float(lat[i])!r}) is attributed to {got[i]!r}; the original region says {exp[i]!r}"
+    snap0 = _snap(region)
+    data = [(str(i), 1000 * i, float(b), float(a), 10.0, 5.0) for i, (a, b) in enumerate(zip(lon, lat))]
+    kept_exp = [i for i in range(len(sub)) if exp[i] != "o"]
+    # ---- (h) copies
+    forms = (("copy.copy", copy.copy), ("copy.deepcopy", copy.deepcopy), ("pickle round trip", lambda x: pickle.loads(pickle.dumps(x))))
+    for fname, f in forms:
+        run.count("ops:copy:" + fname)
+        run.evaluations += 1
+        try:
+            r2 = f(region)
+            got = answers(r2)
+        except ValueError as e:
+            got = None
+            why = f"ValueError: {e}"
+        except Exception as e:
+            run.oracle_failure(dict(case, form=fname), f"{fname} of the region, then the lookups: {type(e).__name__}: {str(e)[:160]}")
+            return
+        if got is None or got != exp:
+            run.oracle_failure(dict(case, form=fname), f"after {fname} of the region: " + (why if got is None else first_diff(got)))
+            return
+        if fname != "copy.copy":
+            try:
+                c2 = f(CSEPCatalog(data=data, region=region))
+                ids = [int(i) for i in c2.filter_spatial(in_place=False).get_event_ids()]
+            except Exception as e:
+                run.oracle_failure(dict(case, form=fname), f"{fname} of a catalog bound to the region, then filter_spatial: {type(e).__name__}: {str(e)[:160]}")
+                return
+            if ids != kept_exp:
+                run.oracle_failure(dict(case, form=fname), f"{fname} of a catalog bound to the region: filter_spatial keeps events {ids[:20]}, expected {kept_exp[:20]}")
+                return
+    # ---- (i) state after a caught exception
+    run.count("ops:after-caught-exception")
+    outside = next((i for i in range(len(sub)) if exp[i] == "o"), None)
+    try:
+        if outside is not None:
+            try:
+                region.get_index_of(lon, lat)
+                run.oracle_failure(case, "get_index_of of a list with an outside point did not raise")
+                return
+            except ValueError:
+                pass
+        for bad in (lambda: region.get_location_of([n + 5]), lambda: region.get_cartesian(numpy.zeros(n + 3)),
+                    lambda: region.get_index_of(lon[:3], lat[:2])):
+            try:
+                bad()
+            except Exception:
+                pass
+        cat = CSEPCatalog(data=data, region=None)
+        try:
+            cat.filter_spatial()
+        except CSEPCatalogException:
+            pass
+        except Exception:
+            pass
+        cat.region = region
+        if outside is not None:
+            try:
+                cat.spatial_counts()
+            except ValueError:
+                pass
+        got = answers(region)
+        ids = [int(i) for i in cat.filter_spatial(in_place=True).get_event_ids()]
+        sc = numpy.asarray(cat.spatial_counts())
+        ref = numpy.bincount(numpy.array([exp[i] for i in kept_exp], dtype=int), minlength=n) if kept_exp else numpy.zeros(n)
+    except Exception as e:
+        run.oracle_failure(case, f"after caught exceptions the legal calls raised {type(e).__name__}: {str(e)[:160]}")
+        return
+    if got != exp or ids != kept_exp or sc.shape != ref.shape or not numpy.array_equal(sc, ref) or _snap(region) != snap0:
+        run.oracle_failure(case, "after caught exceptions (outside point in get_index_of, bad index, wrong-length data, spatial_counts with an outside "
+                                 "event, filter_spatial without region) the legal calls on the same objects differ from a fresh run: " +
+                           (first_diff(got) if got != exp else f"filter_spatial kept {ids[:15]} (expected {kept_exp[:15]}) / counts differ / region changed"))
+        return
+    # ---- (j) a user catalog class that overrides the coordinate accessors
+    run.count("ops:user-catalog-subclass")
+    shift = 1000.0
+
+    class ShiftedCatalog(CSEPCatalog):
+        """stores its coordinates shifted by +1000 degrees and undoes the shift in the documented accessors"""
+        def get_longitudes(self):
+            return self.catalog["longitude"] - shift
+
+        def get_latitudes(self):
+            return self.catalog["latitude"] - shift
+    try:
+        sdata = [(str(i), 1000 * i, float(b) + shift, float(a) + shift, 10.0, 5.0) for i, (a, b) in enumerate(zip(lon, lat))]
+        # (the shift is undone exactly only where x + 1000 - 1000 == x: keep those events)
+        okk = [i for i in range(len(sub)) if (float(lon[i]) + shift) - shift == float(lon[i]) and (float(lat[i]) + shift) - shift == float(lat[i])]
+        sdata = [sdata[i] for i in okk]
+        sc_ = ShiftedCatalog(data=sdata, region=region)
+        kept_s = [int(i) for i in sc_.filter_spatial(in_place=False).get_event_ids()]
+        exp_s = [i for i in okk if exp[i] != "o"]
+        inside_cat = ShiftedCatalog(data=[sdata[j] for j, i in enumerate(okk) if exp[i] != "o"], region=region)
+        cnt = numpy.asarray(inside_cat.spatial_counts()) if exp_s else numpy.zeros(n)
+        idxs = [int(v) for v in inside_cat.get_spatial_idx()] if exp_s else []
+        ref = numpy.bincount(numpy.array([exp[i] for i in exp_s], dtype=int), minlength=n) if exp_s else numpy.zeros(n)
+    except Exception as e:
+        run.oracle_failure(dict(case, form="subclass"), f"a catalog subclass overriding get_longitudes / get_latitudes: {type(e).__name__}: {str(e)[:160]}")
+        return
+    if kept_s != exp_s or not numpy.array_equal(cnt, ref) or idxs != [exp[i] for i in exp_s]:
+        run.oracle_failure(dict(case, form="subclass"),
+                           f"a catalog subclass whose get_longitudes / get_latitudes undo a storage shift: filter_spatial keeps {kept_s[:15]} (by the "
+                           f"accessors' coordinates {exp_s[:15]}), spatial_counts / get_spatial_idx {'agree' if numpy.array_equal(cnt, ref) else 'differ'}")
+        return
+    # ---- (k) global numeric state while the region is BUILT and queried
+    if spec.get("kind") == "lattice" and n <= 700:
+        run.count("ops:global-numeric-state")
+        prec = orng.choice([3, 4, 5, 6] if spec.get("ctor") == "from_origins_nodh" else [2, 3, 4, 5, 6])
+        org0 = c01.lattice_origins(spec)        # (the harness's own Decimal arithmetic stays outside the lowered context)
+        try:
+            with decimal.localcontext() as ctxd:
+                ctxd.prec = prec
+                with numpy.errstate(divide="raise", invalid="raise"):
+                    r3, _, _ = c01.build_region(spec, origins=org0)
+                    got = answers(r3)
+        except Exception as e:
+            run.oracle_failure(dict(case, form=f"decimal prec {prec} + numpy.errstate(raise)"),
+                               f"building / querying the region under decimal.localcontext(prec={prec}) and numpy.errstate(divide='raise', invalid='raise'): {type(e).__name__}: {str(e)[:160]}")
+            return
+        same = numpy.array_equal(numpy.asarray(r3.xs), numpy.asarray(region.xs)) and numpy.array_equal(numpy.asarray(r3.ys), numpy.asarray(region.ys))
+        if got != exp or not same:
+            run.oracle_failure(dict(case, form=f"decimal prec {prec} + numpy.errstate(raise)"),
+                               f"built under decimal.localcontext(prec={prec}) the region has {'other edge arrays' if not same else 'the same edge arrays'} "
+                               f"(xs[0]={float(r3.xs[0])!r} vs {float(region.xs[0])!r}); " + (first_diff(got) if got != exp else ""))
+
+
 def check_ops(run, drv, pending, spec, base, region, cells, flags, orc, rng, pts, ans, exact_only, case_seed=None, only=None):
     seed, orng = _ops_rng(rng, case_seed)
     n = len(region.polygons)
     shipped = spec.get("kind") == "shipped"
-    todo = only or ["masked", "eq", "incres", "nonfinite", "big", "shared", "rebind", "sizes", "aftershock", "filter"]
+    todo = only or ["masked", "eq", "incres", "nonfinite", "big", "shared", "rebind", "sizes", "copies", "aftershock", "filter"]
 
     def guarded(name, fn):
         # a crash while reading an implementation output is a missed detection: report it with the case as replay
@@ -1350,6 +1519,9 @@ def check_ops(run, drv, pending, spec, base, region, cells, flags, orc, rng, pts
                                                                      random.Random(seed ^ 0x5EB1), seed))
     if "sizes" in todo and len(region.polygons) <= 20000:
         guarded("sizes_and_forms", lambda: check_sizes_and_forms(run, base, region, orc, pts, ans, exact_only, random.Random(seed ^ 0x512E), seed))
+    if "copies" in todo:
+        guarded("copies_and_state", lambda: check_copies_and_state(run, base, spec, region, cells, flags, orc, pts, ans, exact_only,
+                                                                   random.Random(seed ^ 0xC0F1), seed))
     if "aftershock" in todo and not shipped and len(set(cells)) == len(cells) and spec.get("mask") is None:
         guarded("aftershock_region", lambda: check_aftershock(run, base, region, cells, seed))
     if "filter" in todo:
